@@ -14,6 +14,7 @@
 #include <solver/rqb.h>
 #include <solver/sgm.h>
 #include <solver/universal.h>
+#include <nano/verif.h>
 
 using namespace nano;
 
@@ -118,6 +119,8 @@ solver_state_t solver_t::minimize(const function_t& function, const vector_t& x0
 bool solver_t::done(solver_state_t& state, const bool iter_ok, const bool converged, const logger_t& logger) const
 {
     state.update_calls();
+    NANO_VERIF_TRACE("solver.done", iter_ok, converged, state.valid(), state.fx(), state.gradient_test(),
+                     state.fcalls(), state.gcalls(), state.x(), state.gx());
 
     if (const auto step_ok = iter_ok && state.valid(); converged || !step_ok)
     {
